@@ -112,9 +112,10 @@ def unended (s : State) : List Attempt := s.attempts.filter fun a => a.row.end_t
 def liveInstances (s : State) : List Instance :=
   s.instances.filter fun i => decide (i.state = .pending) || decide (i.state = .active)
 
-/-- lexicographic measure: (live instances + un-ended attempts, rank sum).  The first component bounds the number of
-`Running → Ready` regressions (each `deactivate` that takes effect consumes a live instance, each `unschedule` that takes
-effect ends an un-ended attempt … see `Props/C39.lean` for what is proved about it). -/
+/-- lexicographic measure: (live instances + un-ended attempts, rank sum).  The second component is what the progress
+actions decrease (`Props/C39.lean`: `worker_complete_decreases`, `canceller_makes_progress`, `scheduler_makes_progress`); the
+first is meant to bound the `Running / Creating → Ready` regressions caused by `unschedule_job` and `deactivate_instance`.
+Nothing is proved about the first component: see `C39.ActorStepsTerminate` for why the obvious invariant fails in the model. -/
 def measure (s : State) : Nat × Int := ((liveInstances s).length + (unended s).length, rankSum s)
 
 end HailVerif.BatchDB
